@@ -1889,6 +1889,20 @@ class Inliner:
                 if isinstance(fi.node, ast.FunctionDef):
                     if self._rewrite_function(fi, live, res):
                         any_change = True
+            # the script part of a module (pyikev2.py) is a body like any other: helpers it calls are inlined into it
+            for m in prog.modules.values():
+                top = [st for st in m.tree.body if not isinstance(st, (ast.FunctionDef, ast.AsyncFunctionDef, ast.ClassDef, ast.Import,
+                                                                         ast.ImportFrom))]
+                if not any(isinstance(x, ast.Call) for st in top for x in ast.walk(st)):
+                    continue
+                try:
+                    from .sval import _ModScope
+                    scope = _ModScope(m)
+                    scope.node = m.tree
+                    if self._rewrite_function(scope, live, res):
+                        any_change = True
+                except Exception:
+                    pass
             prog.reindex()
             cands = {q: prog.functions[q] for q in cands if q in prog.functions}
             if not any_change:
